@@ -484,6 +484,8 @@ def deep_eq(a, b):
         else:
             r = b.__eq__(a)
         return r
+    if getattr(type(a), "__overloaded_eq__", False) or getattr(type(b), "__overloaded_eq__", False):
+        return a == b  # the class overloads == to build a term (as funsor.Funsor does): the result is a value, not a truth
     f = getattr(a, "__deep_eq__", None)
     if f is not None:
         return f(b)
